@@ -16,13 +16,14 @@ from decimal import Decimal
 from lib import heap, treeconv
 
 ID = 'C17'
-TECHNIQUE = 'lock-step differential monitor: cached vs uncached parser on identical histories + fingerprints of every cached tree over time'
+TECHNIQUE = 'lock-step differential monitor: cached vs uncached parser on identical histories + fingerprints of every cached tree over time; coverage-guided texts (atheris) under the same lock-step judgement'
 RULE = ('histories of 6-30 parse/eval calls over a corpus of sources (literals incl. empty and constant lists/dicts, arithmetic on literals, lambdas, assignments, builtin calls) '
         'repeated verbatim, as near-duplicates wrapped in blanks / tabs / newlines / CR LF / form feed / vertical tab / NBSP / lone CR on either side, and interleaved with failing '
         'sources; budgets ample, default and tight (around the need of the program); names fresh or persistent and shadowing builtins in some calls; after every eval the host '
         'mutates the returned lists/dicts (also nested) and the names mapping; cache kinds: dict, LRU(1), LRU(3), always-evicting, evict-on-read, pre-warmed by another parser. '
         'Non-trivial = a call whose outcome was compared between the cached and the uncached parser; distinct = distinct (cache kind, history prefix hash, call).')
 RULE += ' A share of the eval calls also passes ast_names trees parsed from identical texts by each parser itself.'
+RULE += " Coverage-guided texts: one atheris/libFuzzer process per worker (5 s quick, 100 s thorough) runs this check's judgement of a single text (parsed once and evaluated three times on a long-lived parser without a cache and one with a dict cache, the host mutating results in between) over the instrumented sandbox copy; texts on which a difference was recorded there are judged again by the worker."
 ASSUMPTIONS = ['tree fingerprint = class name + vars() of every node, recursively (lists, tuples, nodes; leaf values by type and repr, container leaves by identity and contents)',
                'exception messages are compared after removing memory addresses']
 FINDINGS = {}
@@ -175,6 +176,7 @@ def setup(ctx):
     from smartquery import SqParser
     ctx.SqParser = SqParser
     ctx.plain = SqParser()
+    ctx.textA = ctx.textB = None
     # entries of the function table that the pinned table does not have are called by corpus texts too (several argument shapes, repeated on cached trees)
     from smartquery import functions as _functions
     from lib import gram
@@ -225,6 +227,7 @@ def cases(ctx):
         yield ('hist', 'dict', [('eval', '[1 + 1, 2 + 2, 3 + 3, 4 + 4, 5 + 5, 6 + 6]', 0, 20, 0)] * 3)
         yield ('hist', 'dict', [('eval', 'lower("AbC")', 0, None, 0), ('eval', 'lower("AbC")', 0, None, 1)])
         yield ('hist', 'prewarmed', [('eval', 'days * (60 * 60 * 24)', 0, 1000, 0), ('eval', 'days * (60 * 60 * 24)', 0, 8, 0)])
+    yield ('cgf', rnd.getrandbits(30), ctx.scale(5, 100))          # coverage-guided texts, one fuzzing process per worker
     for _ in range(ctx.scale(40, 1200)):
         r = random.Random(rnd.getrandbits(48))
         subset = r.sample(CORPUS, r.randint(2, 6)) + r.sample(FAILING, r.randint(0, 2))
@@ -266,7 +269,72 @@ def need_of(ctx, src, names):
     return lo
 
 
+def case_deadline(case):
+    return case[2] + 400 if case[0] == 'cgf' else CASE_DEADLINE
+
+
+def run_text(case, ctx):
+    """one text, on a long-lived parser without a cache and a long-lived one with a dict cache: parsed once, evaluated three times (the host mutating what it
+    got back in between) - same outcomes, same names, the cached tree unchanged, no returned object part of the cached tree"""
+    text = case[1]
+    if ctx.textB is None or len(ctx.textB.parse_cache) > 400:
+        ctx.textA, ctx.textB = ctx.SqParser(), ctx.SqParser(parse_cache={})
+    A, B = ctx.textA, ctx.textB
+    fp0 = None
+    for step, entry in enumerate(('parse', 'eval', 'eval', 'eval')):
+        na, nb = base_names(0), base_names(0)
+        oa, va = call(A, entry, text, na if entry == 'eval' else None, 200 if entry == 'eval' else None)
+        ob, vb = call(B, entry, text, nb if entry == 'eval' else None, 200 if entry == 'eval' else None)
+        ctx.count('calls_compared')
+        ctx.count('given_texts_calls_compared')
+        if ('recursion',) in (oa, ob):
+            return
+        detail = {'cache': 'dict (long-lived)', 'call': [entry, text[:300], step]}
+        if oa != ob:
+            ctx.violation('the parser with a cache behaves differently from the parser without', case, detail=dict(detail, without_cache=repr(oa)[:300], with_cache=repr(ob)[:300]))
+            return
+        tree = B.parse_cache.get(text.rstrip() if entry == 'eval' else text)
+        if tree is not None:
+            fp = tree_fp(tree)
+            key = text.rstrip() if entry == 'eval' else text
+            if fp0 is not None and fp0[0] == key and fp0[1] is tree and fp0[2] != fp:
+                ctx.violation('a cached tree changed after it was stored', case, detail=dict(detail, key=key[:80]))
+                return
+            fp0 = (key, tree, fp)
+            if vb is not None:
+                ids = set()
+                tree_container_ids(tree, ids)
+                if ids & heap.mutable_ids(vb):
+                    ctx.violation('an evaluation returned an object that is part of a cached tree', case, detail=detail)
+                    return
+        if entry == 'eval':
+            for v in (va, vb):
+                mutate_result(v, None)
+
+
+def run_cgf(case, ctx):
+    """coverage-guided texts: an atheris/libFuzzer process runs THIS check's run_text over the instrumented sandbox copy; texts on which a difference was recorded
+    there are judged again here"""
+    from lib import cgdriver
+    _, seed, seconds = case
+    seeds = list(CORPUS[:30]) + ['f = v => [v, []]\nf(1)', 'get(d, "zz", [])', '[[], {}] if c else {"a": []}', 'x = [1]\nx', 'map([1, 2], v => {"k": [v]})', 'd["k"]', 'sorted([3, 1], v => [v])']
+    out = cgdriver.run(ctx, 'check:C17:text', seed, seconds, seeds)
+    if out is None:
+        return
+    st, fired, _slow = out
+    for text in fired:
+        ctx.count('texts_on_which_the_oracle_fired_in_the_fuzzing_process')
+        before = len(ctx.violations)
+        run_text(('text', text), ctx)
+        if len(ctx.violations) == before:
+            ctx.violation('coverage-guided fuzzing: a difference was recorded in the fuzzing process but not when the text was judged again here', ('text', text), detail={'text': text[:300]})
+
+
 def run_case(case, ctx):
+    if case[0] == 'cgf':
+        return run_cgf(case, ctx)
+    if case[0] == 'text':
+        return run_text(case, ctx)
     _, kind, calls = case
     A = ctx.SqParser()
     cache = make_cache(kind, ctx.warm)
